@@ -61,6 +61,8 @@ mod definitions;
 mod pretty_print;
 mod chemistry;
 
+#[cfg(mathcat_verif)]
+pub mod verif_hooks;
 pub mod shim_filesystem; // really just for override_file_for_debugging_rules, but the config seems to throw it off
 pub use interface::*;
 
